@@ -295,7 +295,8 @@ def run_property(spec: PropSpec, repo: Repo, tier: str, seed: int, extra: Option
             continue
         res: RuleResult = _RULES[rid](repo)
         insts = [i for i in res.instances if _part_ok(flt, i.get("part", ""))]
-        finds = [f for f in res.findings if _part_ok(flt, f.part) or (f.part == "" and flt is not None and "" in flt)]
+        # a finding without a part label is never projected away (fail loud, not silent)
+        finds = [f for f in res.findings if _part_ok(flt, f.part) or f.part == ""]
         n_inst += len(insts)
         for i in insts:
             distinct.add(rid + "|" + json.dumps(i, sort_keys=True, default=str))
@@ -340,7 +341,8 @@ def run_property(spec: PropSpec, repo: Repo, tier: str, seed: int, extra: Option
         print(f"   rule {r['rule']:<14} instances={r['instances']:<4} {status}   {r['title']}")
     for f, k in knowns:
         print(f"KNOWN-FINDING: property={spec.pid} {k.get('id','')} {f.rule} {f.file}:{f.line} {f.where}: {k.get('what', f.message)}")
-    vdir = VERIF / "evidence" / "violations"
+    evroot = Path(os.environ["VERIF_EVIDENCE_DIR"]) if os.environ.get("VERIF_EVIDENCE_DIR") else VERIF / "evidence"
+    vdir = evroot / "violations"
     replay_paths: List[str] = []
     if violations:
         vdir.mkdir(parents=True, exist_ok=True)
@@ -389,7 +391,7 @@ def run_property(spec: PropSpec, repo: Repo, tier: str, seed: int, extra: Option
         "wall_s": round(wall, 3),
         "violations": len(violations),
     }
-    ev = VERIF / "evidence" / f"{spec.pid}.json"
+    ev = evroot / f"{spec.pid}.json"
     ev.parent.mkdir(parents=True, exist_ok=True)
     ev.write_text(json.dumps(evidence, indent=1, default=str))
 
